@@ -1045,10 +1045,20 @@ ASSUME_PAT = re.compile(r'\b(assume\s*\(|admit\s*\(|external_body|assume_specifi
 
 
 def scan_assumptions(path):
+    """every trusted item of a generated unit: assume / admit / axioms / assume_specification, and for each
+    `external_body` attribute the signature of the function it is attached to (a shim whose contract is assumed)"""
     out = []
-    for ln, line in enumerate(open(path).read().split('\n'), 1):
+    lines = open(path).read().split('\n')
+    for ln, line in enumerate(lines, 1):
         if ASSUME_PAT.search(line) and not line.strip().startswith('//'):
-            out.append('%s:%d: %s' % (os.path.basename(path), ln, line.strip()[:160]))
+            txt = line.strip()[:160]
+            if 'external_body' in line:
+                for nxt in lines[ln:ln + 4]:
+                    m = re.search(r'\bfn\s+\w+[^{]*', nxt)
+                    if m:
+                        txt = 'external_body (contract assumed): ' + m.group(0).strip()[:140]
+                        break
+            out.append('%s:%d: %s' % (os.path.basename(path), ln, txt))
     return out
 
 
